@@ -10,6 +10,7 @@ import (
 	"github.com/ajitpratap0/GoSQLX/pkg/gosqlx"
 	"github.com/ajitpratap0/GoSQLX/pkg/sql/ast"
 	"pgregory.net/rapid"
+	"verif/gen/famgen"
 	"verif/gen/sqlgen"
 	"verif/internal/astdump"
 	"verif/internal/hx"
@@ -140,8 +141,33 @@ var sweepSwitch = map[string]string{
 	"TriggerReferencing.TransitionRelationName": "c14.trigger_name_nodes",
 }
 
+// TestInspectReachesAllLongChains: trees that are deep without any textual nesting - a chain of
+// several hundred operators, UNIONs, casts or subscripts is parsed into a left-deep tree - must be
+// traversed to the very bottom.
+func TestInspectReachesAllLongChains(t *testing.T) {
+	if hx.Shard() != 0 {
+		t.Skip("enumeration runs on shard 0 only")
+	}
+	var cases []string
+	for _, c := range famgen.Compositions {
+		cases = append(cases, c.Compose(famgen.DefaultUnit(c.Unit), 3000))
+		cases = append(cases, c.Compose(strings.ReplaceAll(famgen.DefaultUnit(c.Unit), "a", "(SELECT x{i} FROM y)"), 9000))
+	}
+	for _, f := range famgen.Lexical {
+		switch f.Name {
+		case "cast_chain", "subscript_chain", "qualified_names", "many_literals", "distinct_functions", "distinct_tables_joined", "distinct_ctes", "distinct_aliases":
+			cases = append(cases, f.Render(2000))
+		}
+	}
+	for i, sql := range cases {
+		c := TreeCase{SQL: sql}
+		hx.Case("inspect_reaches_all", true, fmt.Sprint("long_chain_", i), "long_chain")
+		treeCheck.One(t, c)
+	}
+}
+
 func TestInspectReachesAll(t *testing.T) {
-	hx.Rule("inspect_reaches_all", "trees parsed from G-SQL statements; multiset of (type, content) of nodes ast.Inspect visits must equal the multiset of node-typed values reachable by reflection through every exported field; non-trivial = >= 3 distinct node types below statement level; distinct = node type set + size")
+	hx.Rule("inspect_reaches_all", "trees parsed from G-SQL statements (incl. MERGE and DDL) and from chains of several hundred operators / UNIONs / casts / subscripts / joins / CTEs (left-deep trees without textual nesting); multiset of (type, content) of nodes ast.Inspect visits must equal the multiset of node-typed values reachable by reflection through every exported field; non-trivial = >= 3 distinct node types below statement level; distinct = node type set + size")
 	treeCheck.Rapid(t, hx.N(100000, 1000000), func(rt *rapid.T) TreeCase {
 		g := sqlgen.New(rt, features())
 		st := sqlgen.Statement(g)
